@@ -7,6 +7,7 @@ import (
 	"github.com/advancedclimatesystems/gonnx"
 	"github.com/advancedclimatesystems/gonnx/onnx"
 	"github.com/advancedclimatesystems/gonnx/ops/opset13"
+	"google.golang.org/protobuf/proto"
 	"gorgonia.org/tensor"
 
 	"verif/harness/ref"
@@ -296,4 +297,43 @@ func RunGraphTraced(g *Graph, feed map[string]*ref.T, configure func(*Proxy)) Tr
 		tr.Events = px.Events()
 	}
 	return tr
+}
+
+// RunModelProto marshals mp, loads the bytes and runs the model with the given feed.
+func RunModelProto(mp *onnx.ModelProto, feed map[string]*ref.T, outputs []string) Outcome {
+	phase := "marshal"
+	malformed := ""
+	o := Capture(&phase, func() ([]tensor.Tensor, error) {
+		b, err := proto.Marshal(mp)
+		if err != nil {
+			return nil, fmt.Errorf("verif: cannot marshal: %w", err)
+		}
+		phase = "load"
+		m, err := gonnx.NewModelFromBytes(b)
+		if err != nil {
+			return nil, err
+		}
+		phase = "run"
+		in := gonnx.Tensors{}
+		for k, v := range feed {
+			in[k] = ToTensor(v)
+		}
+		res, err := m.Run(in)
+		if err != nil {
+			return nil, err
+		}
+		out := make([]tensor.Tensor, len(outputs))
+		for i, name := range outputs {
+			t, ok := res[name]
+			if !ok {
+				malformed = fmt.Sprintf("declared output %q missing from the result map", name)
+			}
+			out[i] = t
+		}
+		return out, nil
+	})
+	if malformed != "" && o.Kind == Value {
+		o.ReadErr = malformed
+	}
+	return o
 }
